@@ -27,6 +27,93 @@ type recSource struct {
 	Gen    *recSpec `json:"gen,omitempty"`
 	Corpus string   `json:"corpus,omitempty"`
 	Ops    []editOp `json:"ops,omitempty"`
+	// Dialect: the text gts writes for Gen is rewritten into another legal
+	// flat-file layout (as files from other tools have) and enters, like a
+	// corpus file, through gts's own reader in a process of its own.
+	Dialect []string `json:"dialect,omitempty"`
+}
+
+var dialects = []string{"shuffle-quals", "wrap-dblink", "crlf", "trailing-blanks", "origin-bare", "lower-month", "blank-lines-after"}
+
+// applyDialect rewrites GenBank text written by gts into a foreign layout.
+func applyDialect(text []byte, d string, seed uint64) []byte {
+	lines := strings.SplitAfter(string(text), "\n")
+	const qi = "                     "
+	switch d {
+	case "shuffle-quals":
+		// the qualifiers of each feature in another order (repeated names end up apart)
+		r := core.NewRNG(seed)
+		var out []string
+		i := 0
+		for i < len(lines) {
+			l := lines[i]
+			if !(strings.HasPrefix(l, qi+"/")) {
+				out = append(out, l)
+				i++
+				continue
+			}
+			var blocks [][]string
+			for i < len(lines) && strings.HasPrefix(lines[i], qi) {
+				if strings.HasPrefix(lines[i], qi+"/") || len(blocks) == 0 {
+					blocks = append(blocks, nil)
+				}
+				blocks[len(blocks)-1] = append(blocks[len(blocks)-1], lines[i])
+				i++
+			}
+			for k := len(blocks) - 1; k > 0; k-- {
+				j := r.Intn(k + 1)
+				blocks[k], blocks[j] = blocks[j], blocks[k]
+			}
+			for _, b := range blocks {
+				out = append(out, b...)
+			}
+		}
+		return []byte(strings.Join(out, ""))
+	case "wrap-dblink":
+		for i, l := range lines {
+			if strings.HasPrefix(l, "DBLINK      ") {
+				t := strings.TrimRight(l, "\n")
+				lines[i] = t + ",\n            PRJNA000002\n"
+				break
+			}
+		}
+	case "crlf":
+		return bytes.ReplaceAll(text, []byte("\n"), []byte("\r\n"))
+	case "trailing-blanks":
+		in := false
+		for i, l := range lines {
+			if strings.HasPrefix(l, "ORIGIN") {
+				in = true
+				continue
+			}
+			if in && !strings.HasPrefix(l, "//") {
+				lines[i] = strings.TrimRight(l, "\n") + " \n"
+			}
+		}
+	case "origin-bare":
+		for i, l := range lines {
+			if strings.HasPrefix(l, "ORIGIN") {
+				lines[i] = "ORIGIN\n"
+			}
+		}
+	case "lower-month":
+		if len(lines) > 0 {
+			f := strings.Fields(lines[0])
+			if len(f) > 0 {
+				d := f[len(f)-1]
+				if len(d) >= 6 {
+					p := strings.Split(d, "-")
+					if len(p) == 3 && len(p[1]) == 3 {
+						p[1] = p[1][:1] + strings.ToLower(p[1][1:])
+						lines[0] = strings.Replace(lines[0], d, strings.Join(p, "-"), 1)
+					}
+				}
+			}
+		}
+	case "blank-lines-after":
+		return append(text, []byte("\n\n")...)
+	}
+	return []byte(strings.Join(lines, ""))
 }
 
 type c01Scenario struct {
@@ -125,6 +212,12 @@ func genC01(r *core.RNG, tier string) *c01Scenario {
 		} else {
 			g := genRec(r, i)
 			src.Gen = &g
+			if r.Chance(1, 7) {
+				src.Dialect = []string{dialects[r.Intn(len(dialects))]}
+				if r.Chance(1, 4) {
+					src.Dialect = append(src.Dialect, dialects[r.Intn(len(dialects))])
+				}
+			}
 		}
 		if r.Chance(1, 3) {
 			src.Ops = genOps(r)
@@ -279,6 +372,36 @@ func (x *c01Run) exec() {
 	n := len(sc.Records)
 	// P0: corpus records enter through gts's own reader, in a process of their own
 	vals := make([]gts.Sequence, n)
+	foreign := make([]bool, n)
+	for i, s := range sc.Records {
+		if s.Corpus == "" && len(s.Dialect) > 0 && s.Gen != nil {
+			processBoundary()
+			text, err, pnc := writeSeq(s.Gen.build(), seqio.GenBankFile)
+			if err != nil || pnc != "" {
+				continue
+			}
+			for k, d := range s.Dialect {
+				text = applyDialect(text, d, s.Gen.SeqSeed+uint64(k))
+			}
+			processBoundary()
+			r := scanAll(text, simpipe.Spec{Chunks: sc.Chunks3, CutAt: -1}, 0)
+			res.SimOps += r.Reads
+			res.Evaluations++
+			if r.Panic != "" {
+				x.violate("panic", panicSite(r.Panic), fmt.Sprintf("reader panicked on a record in dialect %v: %s", s.Dialect, firstLine(r.Panic)))
+				return
+			}
+			if r.Err != nil || len(r.Seqs) != 1 {
+				// this layout is not one gts reads: nothing to round-trip
+				res.Extended["foreign-layout-not-read:"+strings.Join(s.Dialect, "+")]++
+				continue
+			}
+			vals[i] = r.Seqs[0]
+			foreign[i] = true
+			res.Probes["foreign_layout_records_read"]++
+			x.key("foreign|" + strings.Join(s.Dialect, "+"))
+		}
+	}
 	for i, s := range sc.Records {
 		if s.Corpus == "" {
 			continue
@@ -309,7 +432,11 @@ func (x *c01Run) exec() {
 		x.key("failed-write-first")
 	}
 	for i, s := range sc.Records {
-		if s.Gen != nil {
+		if s.Gen != nil && !foreign[i] {
+			if len(s.Dialect) > 0 {
+				skip[i] = true // the foreign text was not readable
+				continue
+			}
 			vals[i] = s.Gen.build()
 		}
 		for _, op := range s.Ops {
@@ -411,7 +538,7 @@ func (x *c01Run) exec() {
 			sliced = true
 		}
 		if !sliced {
-			structural := sc.Records[i].Gen != nil && len(sc.Records[i].Ops) == 0
+			structural := sc.Records[i].Gen != nil && len(sc.Records[i].Ops) == 0 && len(sc.Records[i].Dialect) == 0
 			if field, detail := compareRecords(vals[i], r2.Seqs[k], structural); field != "" {
 				x.violate("fidelity:"+field, srcKind(sc.Records[i]), fmt.Sprintf("record %d read back differs from what was written in %s: %s", i, field, detail))
 			}
@@ -475,6 +602,9 @@ func srcKind(s recSource) string {
 	k := "gen"
 	if s.Corpus != "" {
 		k = "corpus"
+	}
+	if len(s.Dialect) > 0 {
+		k = "foreign(" + strings.Join(s.Dialect, "+") + ")"
 	}
 	if len(s.Ops) > 0 {
 		k += "+" + s.Ops[len(s.Ops)-1].Op
@@ -600,6 +730,11 @@ func (C01) Candidates(raw json.RawMessage) []json.RawMessage {
 		}
 		if s.Gen == nil {
 			continue
+		}
+		for j := range s.Dialect {
+			c := cl()
+			c.Records[i].Dialect = append(append([]string(nil), s.Dialect[:j]...), s.Dialect[j+1:]...)
+			emit(c)
 		}
 		for _, cand := range shrinkRec(*s.Gen) {
 			c := cl()
